@@ -279,6 +279,80 @@ def run(ctx):
             unsure = [v_ for v_ in vals if v_ not in (3, "3") and v_ not in bad]
             ctx.inst("C18.R10", "profile.%s#opt-level" % pn, False if bad else (None if unsure else True), "opt-level %s%s" % (ol, "; per-package overrides %s" % per_pkg if per_pkg else ""), "Cargo.toml")
 
+    # ---------------- R11 an evaluation error ends the evaluation at once, and grows by a constant per frame
+    ctx.rule("C18.R11", "the call-depth error travels straight up: inside the evaluator every result of evaluate_ast / evaluate_binary_op_ast / evaluate_do_block_expr / FunctionDef::call / BuiltInFunction::call is propagated with `?` or returned before anything else is evaluated (an error kept in a variable while the sibling operand is evaluated makes the error path of a tree recursion exponential; an error assigned to `_` is lost), and no frame rebuilds the message from the whole error (a message that contains the previous error's own rendering doubles per frame)", floor=30)
+    from rules.c02 import parents as parents_
+    EVS = {EVAL, CORE + "expressions::evaluate_binary_op_ast", CORE + "expressions::evaluate_do_block_expr", FCALL, BCALL}
+    for d_ in sorted(EVS):
+        f_ = core.hir.get(d_)
+        if f_ is None or f_.get("body") is None:
+            continue
+        P_ = parents_(f_["body"])
+
+        def up(n_):
+            p_ = P_.get(id(n_))
+            while isinstance(p_, list):
+                p_ = P_.get(id(p_))
+            return p_
+        k11 = {}
+        for x in H.walk(f_["body"]):
+            if not (H.kind(x) in ("Call", "MethodCall") and x.get("def") in EVS):
+                continue
+            cur, par = x, up(x)
+            while isinstance(par, dict) and par.get("k") == "MethodCall" and any(y is cur for y in H.walk(par["recv"])):
+                cur, par = par, up(par)
+            kind = par.get("k") if isinstance(par, dict) else None
+            verdict, why = None, "consumed by %s" % kind
+            if kind == "Try":
+                verdict, why = True, "propagated with `?`"
+            elif kind in ("Ret",) or (kind == "Block" and par.get("expr") is cur) or kind in ("Closure", "Arm"):
+                verdict, why = True, "returned as it is"
+            elif kind == "Let" and par.get("init") is cur:
+                blk = up(par)
+                later = []
+                if isinstance(blk, dict) and blk.get("k") == "Block":
+                    i_ = next((j for j, st_ in enumerate(blk["stmts"]) if st_ is par), None)
+                    rest = (blk["stmts"][i_ + 1:] if i_ is not None else []) + ([blk["expr"]] if blk.get("expr") is not None else [])
+                    later = [H.loc(y) for st_ in rest for y in H.walk(st_) if H.kind(y) in ("Call", "MethodCall") and y.get("def") in EVS]
+                if H.kind(par["pat"]) == "Wild":
+                    verdict, why = False, "the result is assigned to `_`: an error raised in there is dropped and the evaluation goes on"
+                elif later:
+                    # inside a comparator closure (sort_by's key evaluations) an error cannot be returned at all: the two key results are
+                    # matched together and a failure counts as Equal. Recursion through sort_by keys is not one of the forms the
+                    # property lists; recorded, not judged (DESIGN.md, C18: observation)
+                    anc, in_cmp = up(par), False
+                    while isinstance(anc, dict):
+                        if anc.get("k") == "Closure":
+                            m_ = up(anc)
+                            in_cmp = isinstance(m_, dict) and m_.get("k") == "MethodCall" and m_.get("name", "").startswith("sort")
+                            break
+                        anc = up(anc)
+                    if in_cmp:
+                        verdict, why = None, "a key evaluation inside a sort comparator: its error cannot be propagated from there and is mapped to Equal (recursion through sort_by keys is outside the forms the property lists)"
+                    else:
+                        verdict, why = False, "the result is kept in a variable while the evaluation continues (%s): after a failure the other branch is still evaluated in full" % later[:2]
+                else:
+                    verdict, why = True, "bound, nothing else is evaluated before it is returned"
+            elif kind in ("Semi", "Expr") or (kind == "Block" and par.get("expr") is not cur):
+                verdict, why = False, "the result is discarded"
+            lab = H.last(x["def"])
+            i_ = k11.get(lab, 0)
+            k11[lab] = i_ + 1
+            ctx.inst("C18.R11", "%s->%s[%d]" % (d_.replace(CORE, ""), lab, i_), verdict, why, H.loc(x))
+    n_self = 0
+    for d_, f_ in sorted(core.hir.items()):
+        if f_.get("body") is None or "::tests::" in d_ or not d_.startswith(CORE):
+            continue
+        for x in H.walk(f_["body"]):
+            if H.kind(x) == "Struct" and (x["res"].get("def") or "").endswith("error::RuntimeError"):
+                for fld in x.get("fields", []):
+                    if fld["name"] == "message":
+                        for m_ in H.walk(fld["e"]):
+                            if H.kind(m_) == "Macro" and m_.get("name") == "format" and any("error::RuntimeError" in (H.strip(a_).get("ty") or "") for a_ in m_.get("args", [])):
+                                n_self += 1
+                                ctx.inst("C18.R11", "%s#message-from-whole-error" % d_.replace(CORE, ""), False, "a RuntimeError's message is formatted from a whole RuntimeError: each frame that does this includes the previous rendering (message, context, source excerpt) once more", H.loc(m_))
+    ctx.inst("C18.R11", "message-from-whole-error#none", n_self == 0, "RuntimeError messages built from a whole RuntimeError: %d" % n_self, None)
+
     ctx.rule("C18.R3s", "the evaluator runs on the main thread (8 MiB default) or on a thread whose explicit stack size is at least that; recorded for the stack budget", floor=1)
     sizes = []
     for name, f in cg.fns.items():
